@@ -27,6 +27,13 @@ Proof.
 Qed.
 Print Assumptions C34_date_string.
 
+(* Date(datetime.datetime(y, m, d, hh, mm, ss)): the day count is that of the calendar day for EVERY year (also before 1970,
+   where the second count is negative) and every time of day; converting it back gives the same date *)
+Theorem C34_date_from_datetime : forall y m d hh mm ss, valid_date y m d = true -> valid_tod hh mm ss = true ->
+  date_from_datetime y m d hh mm ss = days_from_civil y m d /\ civil_from_days (date_from_datetime y m d hh mm ss) = (y, m, d).
+Proof. intros. split; [apply date_from_datetime_day|apply date_from_datetime_roundtrip]; assumption. Qed.
+Print Assumptions C34_date_from_datetime.
+
 Theorem C34_date_range_ends : days_from_civil 1 1 1 = MIN_DAY /\ days_from_civil 9999 12 31 = MAX_DAY /\ days_from_civil 1970 1 1 = 0.
 Proof. repeat split. Qed.
 Print Assumptions C34_date_range_ends.
